@@ -142,6 +142,13 @@ def faults(base):
     s["channels"].append(channel("AA2", sample("x2", 2, shapefactor("sfX"))))
     s["channels"].append(channel("AA3", sample("x3", 3, shapefactor("sfX"))))
     emit("binwise-shared:shapefactor-3v2", "appended", s, False)
+    # channels are processed in sorted-name order: make the wider place sort first, in both listing orders
+    for tag, order in (("wide-first", ("AW3", "BN2")), ("wide-first-listed-last", ("BN2", "AW3"))):
+        s = copy.deepcopy(spec0)
+        for nm in order:
+            nb = int(nm[-1])
+            s["channels"].append(channel(nm, sample("x" + nm, nb, shapefactor("sfX"))))
+        emit("binwise-shared:shapefactor-" + tag, "appended", s, False)
     s = copy.deepcopy(spec0)
     s["channels"].append(channel("ZZ3", sample("x3", 3, staterror("stX", 3))))
     s["channels"].append(channel("ZZ2", sample("y2", 2, staterror("stX", 2))))
